@@ -1226,15 +1226,20 @@ def emit_const(ctx, name, src, ty=None):
 def gen_cp437(src):
     params, ret, body = find_fn(src, "to_char")
     tbl = [None] * 256
-    for m in re.finditer(r"(0x[0-9a-fA-F]+)\s*(?:\.\.=\s*(0x[0-9a-fA-F]+))?\s*=>\s*([^,]+),", strip_comments(body)):
-        lo = int(m.group(1), 16)
-        hi = int(m.group(2), 16) if m.group(2) else lo
+    # integer literals in any Rust spelling: hex / octal / binary / decimal, underscores, optional type suffix
+    LIT = r"(?:0x[0-9a-fA-F_]+|0o[0-7_]+|0b[01_]+|[0-9][0-9_]*)(?:_?(?:u8|u16|u32|u64|usize|i32))?"
+    def rust_int(t):
+        t = re.sub(r"_?(?:u8|u16|u32|u64|usize|i32)$", "", t.strip()).replace("_", "")
+        return int(t, 0) if re.match(r"0[xob]", t) else int(t, 10)
+    for m in re.finditer(r"(%s)\s*(?:\.\.=\s*(%s))?\s*=>\s*([^,]+)," % (LIT, LIT), strip_comments(body)):
+        lo = rust_int(m.group(1))
+        hi = rust_int(m.group(2)) if m.group(2) else lo
         rhs = m.group(3).strip()
         for b in range(lo, hi + 1):
             if b > 255:
                 raise TransError("cp437 arm out of range")
-            if re.match(r"0x[0-9a-fA-F]+$", rhs):
-                v = int(rhs, 16)
+            if re.match(LIT + r"$", rhs):
+                v = rust_int(rhs)
             elif re.match(r"input\s+as\s+u32$", rhs):
                 v = b
             else:
